@@ -1538,6 +1538,10 @@ def junkLock (st : State) (inp : List String) (obs : List String) : State × Lis
     match c.toNat?, ch.toNat?, parseHex hex with
     | some c, some ch, some bs => ({ st with junkPending := st.junkPending ++ [(c, ch, bs)] }, [])
     | _, _, _ => (st, [Verdict.bad "junk line"])
+  | ["disconnect", c] =>
+    -- `remove_client` purges what the client had queued
+    if !ok then (st, []) else
+    ({ st with junkPending := st.junkPending.filter fun (jc, _, _) => some jc ≠ c.toNat? }, [])
   | "sframe" :: _ =>
     if st.junkPending.isEmpty then (st, []) else
     if obs.any (·.startsWith "panic") then ({ st with junkPending := [] }, []) else
